@@ -1,7 +1,7 @@
 (* C10 -- property theorems only. *)
 From Coq Require Import ZArith List Bool.
 From Coq Require Import Sorted.
-From WNTRV Require Import Lib.Sched C10.Proofs C10.Invariant C10.Times C04.Window.
+From WNTRV Require Import Lib.Sched C10.Proofs C10.Invariant C10.Times C04.Window C04.AtTimeSet.
 Import ListNotations.
 Local Open Scope Z_scope.
 
@@ -50,6 +50,20 @@ Proof.
   intros ts te hs rs sc D l st0 p D1 D' f1 tr1 s1 f2 tr2 s2 H1 H2 H3 H4 H5 H6 H7.
   exact (window_survives_pause ts te hs rs sc D l st0 p H1 H2 H3 H4 D1 D' f1 tr1 s1 f2 tr2 s2 H5 H6 H7).
 Qed.
+(* the same for ANY set of AT TIME controls at distinct instants: paused anywhere, continued by a new simulator object to any duration, every
+   solved step of both parts shows on every link the command of the latest control reached (is_S, see C04), the continued part lies after
+   the pause and steps over no instant at which a control changes a status *)
+Theorem C10_control_set_survives_pause : forall cs hs rs sc D st0, 0 < rs -> 0 < hs -> (forall a, In a cs -> 0 < a_thr a) -> NoDup (map a_thr cs) ->
+  forall D1 D' f1 tr1 s1 f2 tr2 s2,
+  steps f1 (gs cs hs rs sc D st0) D1 (init_state (gs cs hs rs sc D st0)) = Some (tr1, s1) ->
+  steps f2 (gs cs hs rs sc D st0) D' (restart_state (gs cs hs rs sc D st0) s1) = Some (tr2, s2) ->
+  (forall e, In e (tr1 ++ tr2) -> is_S cs st0 (fst e) (snd e)) /\ (forall e, In e tr2 -> s_prev s1 < fst e) /\
+  (forall a, In a cs -> s_prev s1 < a_thr a <= s_prev s2 ->
+     In (a_thr a) (map fst tr2) \/ exists st, (st = s_st s1 \/ In st (map snd tr2)) /\ is_S cs st0 (a_thr a) st).
+Proof.
+  intros cs hs rs sc D st0 H1 H2 H3 H4 D1 D' f1 tr1 s1 f2 tr2 s2 H5 H6.
+  exact (at_time_set_survives_pause cs hs rs sc D st0 H1 H2 H3 H4 D1 D' f1 tr1 s1 f2 tr2 s2 H5 H6).
+Qed.
 Theorem C10_fuel_irrelevant : forall g D f k s r, steps f g D s = Some r -> steps (f + k) g D s = Some r.
 Proof. exact steps_fuel_mono. Qed.
 Print Assumptions C10_pause_continue.
@@ -57,4 +71,5 @@ Print Assumptions C10_restart_equiv_partial.
 Print Assumptions C10_rule_index_invariant.
 Print Assumptions C10_times_strictly_increasing.
 Print Assumptions C10_window_survives_pause.
+Print Assumptions C10_control_set_survives_pause.
 Print Assumptions C10_restart_equiv_sim_time_controls.
